@@ -365,15 +365,21 @@ func (e *envState) clockNow() *Term {
 	in := e.in
 	ts := in.ts
 	if e.now == nil {
-		e.now = in.fresh("clock", BV(64))
-		in.model[e.now.ID] = 1000000000
-		in.nondet = append(in.nondet, NondetVar{"clock", "clock", []*Term{e.now}})
-		in.assume(ts.And(ts.Sle(ts.Const(64, 1000000000), e.now), ts.Sle(e.now, ts.Const(64, 8999999999))))
+		// unix time = 1700000000 + x, x in [0,3000]: ten decimal digits, the low four symbolic
+		x := in.fresh("clock", BV(64))
+		in.model[x.ID] = 0
+		delete(in.ts.Ranges, x.ID)
+		in.nondet = append(in.nondet, NondetVar{"clock", "clock", []*Term{x}})
+		in.assume(ts.Ule(x, ts.Const(64, 3000)))
+		in.ts.Ranges[x.ID] = [2]uint64{0, 3000}
+		e.now = ts.Add(x, ts.Const(64, 1700000000))
 		return e.now
 	}
 	// consecutive readings may be up to 1 s apart
 	d := in.fresh("tick", BV(64))
+	delete(in.ts.Ranges, d.ID)
 	in.assume(ts.Ule(d, ts.Const(64, 1)))
+	in.ts.Ranges[d.ID] = [2]uint64{0, 1}
 	e.now = ts.Add(e.now, d)
 	return e.now
 }
